@@ -145,6 +145,7 @@ impl TableBuilder for PostgresQueryBuilder {
                                 column_spec,
                                 ColumnSpec::AutoIncrement
                                     | ColumnSpec::Generated { .. }
+                                    | ColumnSpec::Comment(_)
                                     | ColumnSpec::Using(_)
                             )
                         {
@@ -178,7 +179,10 @@ impl TableBuilder for PostgresQueryBuilder {
                                 column_def.name.prepare(sql.as_writer(), self.quote());
                                 write!(sql, ")").unwrap();
                             }
-                            ColumnSpec::Check(check) => self.prepare_check_constraint(check, sql),
+                            ColumnSpec::Check(check) => {
+                                write!(sql, "ADD ").unwrap();
+                                self.prepare_check_constraint(check, sql);
+                            }
                             ColumnSpec::Generated { .. } => {}
                             ColumnSpec::Extra(string) => write!(sql, "{string}").unwrap(),
                             ColumnSpec::Comment(_) => {}
@@ -187,7 +191,14 @@ impl TableBuilder for PostgresQueryBuilder {
                                 QueryBuilder::prepare_simple_expr(self, expr, sql);
                             }
                         }
-                        false
+                        // still nothing written if this specification has no ALTER form
+                        first
+                            && matches!(
+                                column_spec,
+                                ColumnSpec::AutoIncrement
+                                    | ColumnSpec::Generated { .. }
+                                    | ColumnSpec::Comment(_)
+                            )
                     });
                 }
                 TableAlterOption::RenameColumn(from_name, to_name) => {
